@@ -25,6 +25,8 @@ for d in sorted(glob.glob(os.path.join(root, "seeded", "C*"))):
             k = re.search(r"what: ([^:\n]+/[^:\n ]+)", t)
             if k and "DETECTED with" in res: res += f" (`{k.group(1).strip()}`)"
             break
+    on = os.path.join(d, 'owner_note.txt')
+    if os.path.exists(on): res += ' — ' + open(on).read().strip()
     rows.append((name, f0, title[:110], res))
 print("| change | file(s) | idea | owning check (quick) |\n|---|---|---|---|")
 for r in rows: print("| " + " | ".join(r) + " |")
